@@ -118,7 +118,7 @@ func (d *DBI) doFlushFields() {
 	// - transform is something we set, should never be larger than 50 chars
 	// - flags is a varint
 	// - a few extra bytes for tag and length varints
-	b := make([]byte, 1000)
+	b := make([]byte, 1000+len(d.name)+len(d.transform))
 	offset := 0
 
 	if len(d.name) > 0 {
